@@ -51,8 +51,16 @@ class Own:
         try:
             sp = ctx.memo("splice_interp", lambda: SpliceInterp(ctx))
             self.splice_nodes = {id(x) for x in ast.walk(sp.block)}
-        except Undecided:
+        except Exception:  # the interpreter could not read the splice: its block is still the description branch of DAG.__call__
             self.splice_nodes = set()
+            call_ = ctx.own_method("DAG", "__call__")
+            if call_ is not None:
+                for n_ in iter_own_nodes(call_.node):
+                    if isinstance(n_, ast.If) and any(
+                            isinstance(x, ast.Call) and isinstance(x.func, ast.Attribute) and x.func.attr == "append"
+                            and (dotted(x.func.value) or "").endswith("DAG_PREFIX") for s_ in n_.body for x in ast.walk(s_)):
+                        self.splice_nodes = {id(x) for x in ast.walk(n_)}
+                        break
 
     # ------------------------------------------------------------------ run-reachable functions
     def entries(self) -> List[FuncInfo]:
